@@ -280,6 +280,21 @@ def diagStep (toks : List String) : Option String :=
     diagStepCore ("hsweep" :: ham :: showRats (makeBondWeights (tableHam (parseTableHam ham))) :: rest)
   | "gprob" :: ham :: rest =>
     diagStepCore ("hprob" :: ham :: showRats (makeBondWeights (tableHam (parseTableHam ham))) :: rest)
+  | ["gzero", ham, beta, cutoff, state, slots, script, k, b] =>
+    -- a bond of weight 0 at slot k: the count current at the slot and the probability of passing the rejection test (0)
+    let H := tableHam (parseTableHam ham)
+    let bw := makeBondWeights H
+    let β := parseRat beta
+    let L := parseNat cutoff
+    let c : Config := { state := parseBits state, slots := parseSlots slots }
+    let (_, st, n, rs) := sweepPrefix (heatBathSlot H bw β L) L (parseNat k) c (RS.ofScript (parseNats script))
+    let bond := parseNat b
+    let sub := readVars st (H.vars bond)
+    let mw := bw.getD bond 0
+    let acc : Rat := if mw = 0 then 0 else clip1 (H.w bond sub sub / mw)
+    if rs.panicked || rs.short then some "PANIC" else
+    if rs.margin < 1 / 1000000000 then some "?" else
+    some s!"{n} {showApprox acc}"
   | _ => diagStepCore toks
 
 end Proto
